@@ -40,6 +40,7 @@ THEOREMS = [
     "MjProof.C48.resample_at_original_times_id",
     "MjProof.C48.lerp_between_neighbours",
     "MjProof.C48.interp_within_global_range",
+    "MjProof.C48.interp_at_sample",
     "MjProof.C48.clamp_below",
     "MjProof.C48.clamp_above",
     "MjProof.C48.applyDelay_zero_id",
@@ -602,9 +603,18 @@ def run(ctx):
     ctx.directed_search = directed
 
     if drv:
+        # which variant of TimeSeries.interpolate does the tree have? (model header: `hold`)
+        probe = "resample 1 1 c ; %s ; %s ; s0:0 | %s" % (hexf(1.0), hexf(2.0), hexf(1.0))
+        rc, po, perr = ctx.run_lines(impl, [probe])
+        got = po[0] if rc == 0 and po else "<rc=%s %s>" % (rc, perr[-300:])
+        variant = {"ok 1 1 ; %s ; nan" % hexf(1.0): "asfound", "ok 1 1 ; %s ; %s" % (hexf(1.0), hexf(2.0)): "hold"}.get(got)
+        ctx.oblige("one-sample interpolate is one of the two modelled variants", "correspondence", variant is not None, got)
+        ctx.extra["model_variant_matching_the_code"] = {
+            "interpolate_one_sample": variant or "unrecognised",
+            "meaning": "asfound = interp1d on a single point (0/0 -> NaN at the sample time); hold = the sample is held constant"}
         cmp = Cmp()
         ctx.differential("sysid signal modifiers vs Lean model (floats: bitwise or <= 1e-12 of the data scale)",
-                         [drv], impl, lines, keyf=keyf, cmp=cmp)
+                         [drv, variant or "asfound"], impl, lines, keyf=keyf, cmp=cmp)
         ctx.extra["float_cells_compared"] = cmp.nfloat
         ctx.extra["float_cells_bitwise_equal"] = cmp.nbitwise
         ctx.extra["max_relative_deviation"] = cmp.maxrel
